@@ -21,10 +21,11 @@ EXHAUSTIVE = False
 KNOWN = "C02-wrapper-not-first:"
 FREED = "C02-nested-freed-buffer:"
 # Depth-2 nesting makes the real decoder return views into a buffer it has just freed (MessageSet::from_vec keeps the outer
-# vector and drops the inner one the messages point into). What is exposed then depends on the allocator; with a decompression
-# following in the same reply the bytes of ANOTHER partition show up. Until that is repaired, generated replies carry a nested
-# layout only as their last partition (nothing is decoded after it), which keeps the correspondence runs deterministic.
-NESTED_ANYWHERE = False
+# vector and drops the inner one the messages point into). What is exposed then depends on the allocator: the bytes of ANOTHER
+# partition or heap pointers show up (witness corpus/known/C02-nested-freed-buffer.json). The model has no such behaviour, so every
+# affected case is also a model/implementation disagreement. While NESTED_DEPTH2 is False the generator never lets the decoder
+# complete a descent into a second-level wrapper: such layouts are delivered only cut inside their outer wrapper.
+NESTED_DEPTH2 = False
 
 
 # ---- layouts ---------------------------------------------------------------------------------------------
@@ -90,8 +91,12 @@ def violation(ex, complete, req):
             [x[0] for x in ex][:6], req, [x[0] for x in q][:6])
     if not has_wrapper(complete) and ex != q:
         return "uncompressed set: %d of %d complete messages exposed" % (len(ex), len(q))
-    if not ex and complete and qualifying(complete[:1], req):
-        return "nothing exposed although the first complete batch holds offset %d >= %d" % (qualifying(complete[:1], req)[0][0], req)
+    if not ex:
+        # the batch a broker starts the reply with: the first one that reaches the requested offset
+        first = [e for e in complete if top_last(e) >= req][:1]
+        if qualifying(first, req):
+            return "nothing exposed although the first complete batch reaching the requested offset holds offset %d >= %d" % (
+                qualifying(first, req)[0][0], req)
     return None
 
 
@@ -159,11 +164,12 @@ def wrapper(rng, offs, n=None, codec=None, big=False):
 KINDS = [("plain", 22), ("wrappers", 28), ("wrap_then_any", 12), ("below_then_wrap", 8), ("nested", 12), ("known", 15), ("empty", 3)]
 
 
-def rand_layout(rng, kind=None, big=False):
+def rand_layout(rng, kind=None, big=False, known_ok=True):
     """-> (kind, entries, requested offset)"""
     if kind is None:
-        r = rng.random() * sum(w for _, w in KINDS)
-        for kind, w in KINDS:
+        kinds = [(k, (w * 3 if k == "known" else w)) for k, w in KINDS if known_ok or k != "known"]
+        r = rng.random() * sum(w for _, w in kinds)
+        for kind, w in kinds:
             r -= w
             if r < 0:
                 break
@@ -265,8 +271,26 @@ def fetch_item(parts, rng=None):
 
 def job_descends(job):
     kind, entries, req, cut, chunk, copies = job
+    if depth(entries) < 2:
+        return False
     data, lens = encode_layout(entries, chunk, copies)
     return descends_two_levels(complete_entries(entries, lens, cut)[0])
+
+
+def admit(rng, job):
+    """-> the job, a replacement that is cut inside the outer wrapper, or None"""
+    if NESTED_DEPTH2 or not job_descends(job):
+        return job
+    kind, entries, req, cut, chunk, copies = job
+    data, lens = encode_layout(entries, chunk, copies)
+    pos = 0
+    for e, n in zip(entries, lens):
+        if e[0] == "wrap":
+            if kind.startswith("small:"):
+                return None
+            return (kind, entries, req, pos + rng.randint(0, n - 1), chunk, copies)
+        pos += n
+    return None
 
 
 def scripted_case(rng, jobs, per_fetch=None):
@@ -279,11 +303,6 @@ def scripted_case(rng, jobs, per_fetch=None):
     i = 0
     while i < len(jobs):
         n = min(per_fetch or rng.choice([1, 1, 2, 3, 4, 6, 9]), len(jobs) - i)
-        if not NESTED_ANYWHERE:
-            for j in range(n):
-                if job_descends(jobs[i + j]):
-                    n = j + 1                                # the reply ends with the nested layout
-                    break
         use = rng.sample(slots, n)
         if rng.random() < 0.8:
             use[:-1] = sorted(use[:-1])
@@ -386,21 +405,24 @@ def gen(rng, tier):
         data, lens = encode_layout(entries, chunk)
         for req in reqs:
             for cut in range(len(data) + 1):
-                jobs.append(("small:" + name, entries, req, cut, chunk, False))
+                job = admit(rng, ("small:" + name, entries, req, cut, chunk, False))
+                if job:
+                    jobs.append(job)
     for i in range(0, len(jobs), 108):
         cases.append(scripted_case(rng, jobs[i:i + 108], per_fetch=9))
     # (b) random layouts
     for _ in range(620 if quick else 9000):
         jobs = []
+        known_ok = rng.random() < 0.3          # layouts of the known class are concentrated in 30% of the cases
         for _ in range(rng.randint(10, 40)):
             big = rng.random() < 0.04
-            kind, entries, req = rand_layout(rng, big=big)
+            kind, entries, req = rand_layout(rng, big=big, known_ok=known_ok)
             chunk = None if rng.random() < 0.5 else rng.choice([1, 2, 7, 16, 31, 64, 200]) if not big else rng.choice([64, 500, 4096])
             if chunk == 1 and sum(lens) > 400:
                 chunk = 13
             copies = rng.random() < 0.4
             data, lens = encode_layout(entries, chunk, copies)
-            jobs.append((kind, entries, req, sample_cut(rng, lens), chunk, copies))
+            jobs.append(admit(rng, (kind, entries, req, sample_cut(rng, lens), chunk, copies)))
         cases.append(scripted_case(rng, jobs))
     # (c) the reference broker's own replies
     for _ in range(120 if quick else 1500):
